@@ -37,9 +37,20 @@ import (
 )
 
 const mst = "mst"
-const unorderedDir = "out-of-order"
-const initSuffix = ".init"
-const compactLogDir = "compact_log"
+
+// Names the repository does not export. The check (props/C03/run.py) reads them from the repository's source on every run
+// and passes them in the environment; the literals are only the fallback for running the harness by hand.
+var unorderedDir = envOr("C03_UNORDERED_DIR", "out-of-order")
+var initSuffix = envOr("C03_TMP_SUFFIX", ".init")
+var compactLogDir = envOr("C03_LOG_DIR", "compact_log")
+var compLogMagic = envOr("C03_LOG_MAGIC", "2021A5A5")
+
+func envOr(k, d string) string {
+	if v := os.Getenv(k); v != "" {
+		return v
+	}
+	return d
+}
 
 // ---------- data model of the generator ----------
 
@@ -359,7 +370,7 @@ func visKey(v []rawEnt) string {
 // ---------- intent-log decoding (independent of the repository's unmarshal) ----------
 
 func parseLog(b []byte) (name string, isOrder bool, old, nw []string, ok bool) {
-	magic := "2021A5A5"
+	magic := compLogMagic
 	if len(b) < len(magic) || string(b[len(b)-len(magic):]) != magic {
 		return
 	}
